@@ -368,6 +368,12 @@ func Execute(sc *Scenario, ch simrt.Chooser, keepTrace bool) *Result {
 		MapBase:      sc.MapBase,
 		KeepTrace:    keepTrace,
 		OnSettled:    r.onSettled,
+		OnQuiescent: func() {
+			for g := 0; g < r.ng; g++ {
+				r.res.Probes["quiescent_points"]++
+				r.onSettled(name2run(g))
+			}
+		},
 		OnForeignFire: func(seq uint64, polled bool) {
 			if !polled {
 				// the end of a blocking wait on ctx.Done() may be a mere wake-up; only a
